@@ -1,7 +1,11 @@
 """Obligations per property: which harness, which bounds, which tier.  (DESIGN.md §6)"""
 
 MAX_PAR = 10
+# tiers: quick (<= 900 s wall per property), thorough (1 h cap per obligation; only obligations that
+# were measured to finish), attempt (obligations that have never finished; `--tier attempt` runs
+# them for experiments, no registered command does)
 TIER_CAPS = {
+    "attempt": {"cap_s": 7200, "mem_gb": 40},
     # a quick check must finish well inside 900 s wall (vp check stops it there): every quick
     # obligation is one that was measured at <= ~400 s standalone; anything slower is thorough-only
     "quick": {"cap_s": 660, "mem_gb": 20},
@@ -17,9 +21,11 @@ BASE_STUBS = [
 
 
 def ob(h, tiers="qt", unwind=8, claim="", bounds="", est=60, **kw):
-    d = {"harness": h, "tiers": ["quick"] * ("q" in tiers) + ["thorough"] * ("t" in tiers),
+    d = {"harness": h, "tiers": ["quick"] * ("q" in tiers) + ["thorough"] * ("t" in tiers) + ["attempt"] * ("x" in tiers),
          "unwind": unwind, "claim": claim, "bounds": bounds, "est_s": est}
     d.update(kw)
+    if "ATTEMPT" in claim or "ATTEMPT" in bounds:
+        d["tiers"] = ["attempt"]
     return d
 
 
@@ -32,7 +38,7 @@ def c07():
         ("family_matches_tree", "family/is_left_sibling agree with the explicit tree (right child iff next position is the parent)", 14, 24),
         ("family_is_symmetric", "family(sibling) == (parent, self)", 14, 24),
         ("subtree_ranges", "bintree_leftmost/rightmost/range and leaf counts of a subtree", 12, 20),
-        ("peaks_decompose_size", "peaks() = strictly shrinking perfect trees covering exactly the mmr; empty iff size invalid", 8, 16),
+        ("peaks_decompose_size", "[ATTEMPT: 660 s not enough even at 8 bits] peaks() = strictly shrinking perfect trees covering exactly the mmr; empty iff size invalid", 8, 16),
         ("family_branch_is_iterated_family", "family_branch entries are iterated family() inside the mmr", 10, 16),
         ("family_branch_is_maximal", "family_branch stops only when the next parent leaves the mmr", 10, 16),
     ]:
@@ -81,8 +87,8 @@ def c11():
         ("segment_proof_read_8", "SegmentProof::read on any 8 bytes", "L=8", 6),
         ("segment_proof_read_40", "SegmentProof::read on any 40 bytes", "L=40", 6),
         ("segment_identifier_read_9", "SegmentIdentifier::read on any 9 bytes", "L=9", 4),
-        ("merkle_proof_from_hex_ascii_32", "MerkleProof::from_hex on any 32 ASCII characters: no panic, bounded allocation", "32 symbolic ASCII bytes", 36),
-        ("util_from_hex_utf8_4", "util::from_hex on any valid UTF-8 string of 4 bytes: no panic", "4 symbolic bytes, assumed valid UTF-8", 8),
+        ("merkle_proof_from_hex_ascii_32", "[ATTEMPT: std's TwoWaySearcher does not finish] MerkleProof::from_hex on any 32 ASCII characters: no panic, bounded allocation", "32 symbolic ASCII bytes", 36),
+        ("util_from_hex_utf8_4", "[ATTEMPT: std's TwoWaySearcher does not finish] util::from_hex on any valid UTF-8 string of 4 bytes: no panic", "4 symbolic bytes, assumed valid UTF-8", 8),
     ]:
         obs.append(ob("c11::" + h, "t" if "from_hex" in h else "qt", u, claim, b, cap_s=3600 if "from_hex" in h else None,
                       allow_unsat=["some input is refused"] if h == "segment_identifier_read_9" else []))
@@ -198,8 +204,9 @@ def c05():
         tag = "_n%d_eb%d" % (n, eb)
         u = n + 3
         L = {"memcmp": 400, "memcpy": 400}
-        obs.append(ob("c05::proof_roundtrip", tiers, u, "Proof: read(write(p)) == p bit-exactly for every in-range nonce tuple", b + ", all nonces < 2^edge_bits", env=e, tag=tag, est=60 if n == 8 else 900, loops=L, cap_s=900 if "q" in tiers else 3600))
-        obs.append(ob("c05::proof_decode_valid", tiers, u, "Proof::read on any bytes of the exact length: never panics; Ok => exactly n nonces, each < 2^edge_bits, padding bits zero (refused, not normalised)", b + ", all byte strings", env=e, tag=tag, est=120 if n == 8 else 1500, loops=L, cap_s=900 if "q" in tiers else 3600,
+        att = "[ATTEMPT: exceeds 20 GB] " if (n == 42 and eb > 3) else ""
+        obs.append(ob("c05::proof_roundtrip", tiers, u, att + "Proof: read(write(p)) == p bit-exactly for every in-range nonce tuple", b + ", all nonces < 2^edge_bits", env=e, tag=tag, est=60 if n == 8 else 900, loops=L, cap_s=900 if "q" in tiers else 3600))
+        obs.append(ob("c05::proof_decode_valid", tiers, u, att + "Proof::read on any bytes of the exact length: never panics; Ok => exactly n nonces, each < 2^edge_bits, padding bits zero (refused, not normalised)", b + ", all byte strings", env=e, tag=tag, est=120 if n == 8 else 1500, loops=L, cap_s=900 if "q" in tiers else 3600,
                       allow_unsat=["refused (non-zero padding)"] if (n * eb) % 8 == 0 else []))
         if n == 8:
             obs.append(ob("c05::proof_decode_injective", tiers, u, "two accepted encodings of equal proofs are equal byte strings (canonical form)", b + ", two symbolic buffers", env=e, tag=tag, est=240, loops=L, cap_s=900 if "q" in tiers else 3600))
@@ -247,8 +254,10 @@ def c10():
     ]:
         obs.append(ob("c10b::" + h, "qt", 20, "%s: any accepted byte string re-encodes to exactly the bytes consumed (reader and writer agree on field order and widths; nothing normalised)" % what,
                       "all %d-byte strings x protocol versions {1,2,3,1000}" % L, est=60, loops={"memcmp": 120, "memcpy": 120, "read_empty_bytes": 18}))
-    obs.append(ob("c10b::block_header_canonical", "t", 12, "BlockHeader: any accepted 257-byte string re-encodes identically (timestamp via chrono, all roots, proof of work)",
-                  "[thorough-tier ATTEMPT: exceeded 20 GB in the quick tier] AutomatedTesting proof size 8, edge_bits 10, all other bytes symbolic", est=3000, cap_s=3600, loops={"memcmp": 300, "memcpy": 300, "zeroize": 36}, mem_est_gb=8))
+    for case, what, tiers in [(1, "1_700_000_000", "t"), (0, "0", "t"), (2, "-1", "t"), (3, "i64::MAX", "t"), (4, "i64::MIN", "t"), (5, "just above NaiveDate::MAX", "t"), (6, "NaiveDate::MAX", "t"), (7, "NaiveDate::MIN", "t")]:
+        obs.append(ob("c10b::block_header_canonical", tiers, 12, "[thorough-tier ATTEMPT: exceeds 20 GB] BlockHeader: never panics; any accepted 257-byte string re-encodes identically (all roots, offset, sizes, proof of work) and keeps its timestamp",
+                      "AutomatedTesting proof size 8, edge_bits 10, timestamp = %s (boundary values enumerated, one per query), all other bytes symbolic" % what,
+                      env={"VH_TS": case}, tag="_ts%d" % case, est=300, loops={"memcmp": 300, "memcpy": 300, "zeroize": 36, "read_number": 12, "pack_bits": 12}, mem_est_gb=8))
     return {
         "obligations": obs,
         "stubs": BASE_STUBS + ["E4a Blake2b::compress -> cheap deterministic mixer (equal bytes => equal hash is all the clause needs)"],
@@ -378,7 +387,7 @@ def c15():
     obs = []
     for ca, cb, nch, d, tiers in [(0, 0, 1, 0, "t"), (0, 1, 2, 0, "t"), (0, 1, 2, 1, "t"), (0, 0, 1, 1, "t"), (1, 0, 2, 0, "t"), (0, 2, 3, 0, "t"), (0, 2, 3, 1, "t"), (1, 1, 2, 1, "t")]:
         obs.append(ob("c15::apply_equals_init", tiers, 8,
-                      "BitmapAccumulator::apply (rewind to the first affected chunk, pad, re-apply) yields the same MMR root as init from scratch over the resulting unspent set",
+                      "[ATTEMPT: experimental, C15 is not claimed] BitmapAccumulator::apply (rewind to the first affected chunk, pad, re-apply) yields the same MMR root as init from scratch over the resulting unspent set",
                       "kept bit in chunk %d, changed bit in chunk %d (%s), %d chunks; offsets inside the 1024-bit chunks symbolic" % (ca, cb, "becomes unspent" if d == 0 else "becomes spent", nch),
                       env={"VH_CA": ca, "VH_CB": cb, "VH_NCH": nch, "VH_DIR": d}, tag="_a%d_b%d_n%d_d%d" % (ca, cb, nch, d), est=400,
                       loops={"memcmp": 140, "memcpy": 140, "to_bytes": 140, "any": 40, "from_elem": 40, "BitVec": 140, "Blocks": 40, "peak_map_height": 66, "peak_sizes_height": 66}, mem_est_gb=10))
